@@ -4,7 +4,9 @@ execution.  All theorems quantify over **every schedule** (any finite list of en
 transitions of the worker-pool transition system of `Model/C13.lean`), every worker count,
 every input list, every family of task callables and every set of failing tasks.
 Successive `execute()` calls on one executor object and the shared full cache with Jacobians
-(any interleaving of the workers' atomic `cache_outputs` / `cache_jacobian` calls) are covered too.
+(any interleaving of the workers' atomic `cache_outputs` / `cache_jacobian` calls) are covered too,
+and so are tasks that are *not* pure: calls of `_Functor.__call__` on discipline objects, which read and
+write the execution status of the object and may overwrite the input array it holds (last section).
 Helper lemmas (invariants, measure) are in `Lemmas/C13Pool.lean`, `Lemmas/C13Doe.lean`,
 `Lemmas/C13Session.lean`, `Lemmas/C13Cache.lean`.
 -/
@@ -12,6 +14,7 @@ import GemseoVerif.Lemmas.C13Pool
 import GemseoVerif.Lemmas.C13Doe
 import GemseoVerif.Lemmas.C13Session
 import GemseoVerif.Lemmas.C13Cache
+import GemseoVerif.Lemmas.C13Effects
 
 namespace GV.C13
 
@@ -589,6 +592,228 @@ example :
     = [⟨1, some 10, none⟩, ⟨2, some 20, some 100⟩] := by decide
 
 end JCACHE
+
+/-! ### Tasks with effects on the objects they run on (`DiscParallelExecution`,
+`DiscParallelLinearization`, `MDOParallelChain`) -/
+
+section EFFECTS
+
+variable {σ : Type}
+
+/-- **Effects are invisible.**  Tasks that read and write objects (`body i : σ → Outcome β × σ`, run on
+    the object `obj worker task` of a memory) behave — for *every* schedule, every worker count, every
+    assignment of objects to (worker, task) pairs — exactly like the pure tasks `out`, provided that
+    (`hinit`) every task finds an object that is `Ok` for it, (`hout`) on such an object it gives its
+    pure outcome, and (`hpres`) what a task leaves on an object is still `Ok` for the *other* tasks
+    that may run on that object.  The two ways of breaking the property — an object status left by a
+    failed task that makes the next task fail, an input array shared by a writer and a reader — are
+    exactly failures of `hpres`. -/
+theorem effects_invisible (ec : ECfg σ β) (out : Nat → Outcome β) (Ok : Nat → σ → Prop) (mem0 : List σ)
+    (hinit : ∀ w i, i < ec.nTasks → ∃ o, mem0[ec.obj w i]? = some o ∧ Ok i o)
+    (hout : ∀ i o, Ok i o → (ec.body i o).1 = out i)
+    (hpres : ∀ k i o w w', i ≠ k → ec.obj w' i = ec.obj w k → Ok k o → Ok i o → Ok i (ec.body k o).2)
+    (ops : List Op) (s : EState σ β) (h : erun? ec (einit ec mem0) ops = some s) :
+    run? (ec.pure out) (init (ec.pure out)) ops = some s.pool := by
+  have h0 : (einit ec mem0).pool = init (ec.pure out) := by
+    simp [einit, init, pure_nTasks, pure_nProcs]
+  have := (erun_sim hout hpres (einit_inv_of ec out Ok mem0 hinit) h).1
+  rwa [h0] at this
+
+/-- Consequently every complete execution returns the sequential map of the pure outcomes, with the
+    callbacks called exactly once per successful task with the matching index. -/
+theorem effectful_parallel_eq_sequential (ec : ECfg σ β) (out : Nat → Outcome β) (Ok : Nat → σ → Prop)
+    (mem0 : List σ)
+    (hinit : ∀ w i, i < ec.nTasks → ∃ o, mem0[ec.obj w i]? = some o ∧ Ok i o)
+    (hout : ∀ i o, Ok i o → (ec.body i o).1 = out i)
+    (hpres : ∀ k i o w w', i ≠ k → ec.obj w' i = ec.obj w k → Ok k o → Ok i o → Ok i (ec.body k o).2)
+    (ops : List Op) (s : EState σ β) (h : erun? ec (einit ec mem0) ops = some s)
+    (hf : s.pool.final = true) (outs : List (Option β)) (hr : s.pool.result = .returned outs) :
+    outs = (List.range ec.nTasks).map (fun i => (out i).toOption) ∧
+    s.pool.cbLog.Perm ((List.range ec.nTasks).filterMap (fun i => (out i).toOption.map (fun v => (i, v)))) := by
+  have hreach : Reachable (ec.pure out) s.pool := ⟨ops, effects_invisible ec out Ok mem0 hinit hout hpres ops s h⟩
+  have hpos := positional_results _ _ hreach hf outs hr
+  have hst : s.pool.stop = false := by
+    cases hs : s.pool.stop with
+    | false => rfl
+    | true =>
+      have := (raised_iff_stop _ _ hreach).mpr hs
+      rw [hr] at this
+      cases this
+  have hcb := callbacks_exactly_once _ _ hreach hf hst
+  constructor
+  · rw [hpos, seqMap, pure_nTasks]
+    apply List.map_congr_left
+    intro i hi
+    rw [pure_run ec out i (List.mem_range.mp hi)]
+  · have : seqCallbacks (ec.pure out) =
+        (List.range ec.nTasks).filterMap (fun i => (out i).toOption.map (fun v => (i, v))) := by
+      rw [seqCallbacks, pure_nTasks]
+      apply filterMap_congr_mem
+      intro i hi
+      rw [pure_run ec out i (List.mem_range.mp hi)]
+    rwa [this] at hcb
+
+/-- What task `i` of a list of discipline tasks gives on the reference object `ref`. -/
+def discOut (tasks : List (Nat × DiscCall)) (ref : ObjSt) (i : Nat) : Outcome Rat :=
+  match tasks[i]? with
+  | some t => (discCall t.2 ref).1
+  | none => .fail
+
+theorem range_map_discOut (tasks : List (Nat × DiscCall)) (ref : ObjSt) :
+    (List.range tasks.length).map (fun i => (discOut tasks ref i).toOption) =
+      tasks.map (fun t => (discCall t.2 ref).1.toOption) := by
+  apply List.ext_getElem
+  · simp
+  · intro i h1 h2
+    simp only [List.length_map, List.length_range] at h1
+    simp [discOut, h1]
+
+/-- **A failure affects only its own slot, whatever the objects went through.**
+    `DiscParallelExecution` / `DiscParallelLinearization` (`execute=True` or `False`): the tasks bring
+    their own inputs and run on discipline objects — any assignment of objects to (worker, task) pairs
+    (one discipline per task, one discipline for all the tasks, private copies of forked workers), any
+    initial memory `mem0`, i.e. **any execution status left by earlier tasks or earlier calls**, tasks
+    raising in `_run` or in `_compute_jacobian`, any number of workers, any schedule.  The call returns
+    slot by slot what each task gives alone on a fresh discipline, `None` exactly for the tasks that
+    raise.  (The mechanism is `_reset_failed_status` at the beginning of *both* functors.) -/
+theorem functor_failure_isolated (threaded : Bool) (nObj nProcs : Nat) (tasks : List (Nat × DiscCall))
+    (hown : ∀ t ∈ tasks, t.2.own.isSome = true) (mem0 : List ObjSt)
+    (hmem : ∀ w i, i < tasks.length → (discECfg threaded nObj nProcs tasks).obj w i < mem0.length)
+    (ops : List Op) (s : EState ObjSt Rat)
+    (h : erun? (discECfg threaded nObj nProcs tasks) (einit (discECfg threaded nObj nProcs tasks) mem0) ops = some s)
+    (hf : s.pool.final = true) (outs : List (Option Rat)) (hr : s.pool.result = .returned outs) :
+    outs = tasks.map (fun t => (discCall t.2 ⟨0, false, true⟩).1.toOption) := by
+  let ref : ObjSt := ⟨0, false, true⟩
+  have hn : (discECfg threaded nObj nProcs tasks).nTasks = tasks.length := rfl
+  have := (effectful_parallel_eq_sequential (discECfg threaded nObj nProcs tasks) (discOut tasks ref)
+    (fun _ _ => True) mem0
+    (by
+      intro w i hi
+      have hl := hmem w i (by rwa [hn] at hi)
+      exact ⟨mem0[(discECfg threaded nObj nProcs tasks).obj w i], by simp [hl], trivial⟩)
+    (by
+      intro i o _
+      simp only [discECfg, discOut]
+      cases ht : tasks[i]? with
+      | none => rfl
+      | some t =>
+        simp only
+        exact discCall_own_blind t.2 (hown t (List.mem_of_getElem? ht)) o ref)
+    (by intros; trivial)
+    ops s h hf outs hr).1
+  rw [this, hn, range_map_discOut]
+
+/-- **A parallel chain whose disciplines work in place.**  Threads, task `i` runs on object `i`: its
+    own discipline holding its **own** array, every array starting with the value `x0` of the chain
+    input (`use_deep_copy=True`: `wr = true`, private writable copies; `use_deep_copy=False`:
+    `wr = false`, arrays nobody can write).  Any execution statuses to start with, disciplines
+    reading or scaling their array in place, any number of workers, any schedule: every discipline
+    gives what it gives **alone on the chain input** — no discipline sees the in-place work of
+    another one, so the chain produces the data of the sequential execution. -/
+theorem chain_private_copies_independent (nObj nProcs : Nat) (tasks : List (Nat × DiscCall)) (x0 : Rat)
+    (wr : Bool) (mem0 : List ObjSt)
+    (hobj : ∀ i (t : Nat × DiscCall), tasks[i]? = some t → t.1 = i)
+    (hmem : ∀ i, i < tasks.length → ∃ f, mem0[i]? = some ⟨x0, f, wr⟩)
+    (ops : List Op) (s : EState ObjSt Rat)
+    (h : erun? (discECfg true nObj nProcs tasks) (einit (discECfg true nObj nProcs tasks) mem0) ops = some s)
+    (hf : s.pool.final = true) (outs : List (Option Rat)) (hr : s.pool.result = .returned outs) :
+    outs = tasks.map (fun t => (discCall t.2 ⟨x0, false, wr⟩).1.toOption) := by
+  let ref : ObjSt := ⟨x0, false, wr⟩
+  have hn : (discECfg true nObj nProcs tasks).nTasks = tasks.length := rfl
+  have hobjOf : ∀ w i, i < tasks.length → (discECfg true nObj nProcs tasks).obj w i = i := by
+    intro w i hi
+    have : tasks[i]? = some tasks[i] := by simp [hi]
+    simp [discECfg, this, hobj i tasks[i] this]
+  have := (effectful_parallel_eq_sequential (discECfg true nObj nProcs tasks) (discOut tasks ref)
+    (fun i o => i < tasks.length → o.val = x0 ∧ o.writable = wr) mem0
+    (by
+      intro w i hi
+      rw [hn] at hi
+      obtain ⟨f, hf'⟩ := hmem i hi
+      exact ⟨⟨x0, f, wr⟩, by rw [hobjOf w i hi]; exact hf', fun _ => ⟨rfl, rfl⟩⟩)
+    (by
+      intro i o hok
+      simp only [discECfg, discOut]
+      cases ht : tasks[i]? with
+      | none => rfl
+      | some t =>
+        simp only
+        have hi : i < tasks.length := by
+          rcases Nat.lt_or_ge i tasks.length with hl | hl
+          · exact hl
+          · simp [List.getElem?_eq_none hl] at ht
+        obtain ⟨hv, hw⟩ := hok hi
+        exact discCall_cell t.2 o ref hv hw)
+    (by
+      intro k i o w w' hik hsame hokk hoki hi
+      by_cases hk : k < tasks.length
+      · rw [hobjOf w' i hi, hobjOf w k hk] at hsame
+        exact absurd hsame hik
+      · have : tasks[k]? = none := List.getElem?_eq_none (Nat.le_of_not_lt hk)
+        simp only [discECfg, this]
+        exact hoki hi)
+    ops s h hf outs hr).1
+  rw [this, hn, range_map_discOut]
+
+/-- The greedy one-worker schedule of `n` tasks (submit all, run them in order, collect, join). -/
+def greedySchedule (n : Nat) : List Op :=
+  List.replicate n Op.submit ++ greedyOps n ++ [Op.shutdown, Op.take 0]
+
+/-- Two readers and, between them, a discipline scaling its input in place by 2 (outputs `3x+1`,
+    `5x`, `7x+2`), chain input `3`. -/
+def exChainTasks : List (Nat × DiscCall) :=
+  [(0, ⟨.exec, none, none, 3, 1, .none, false⟩), (1, ⟨.exec, none, some 2, 5, 0, .none, false⟩),
+   (2, ⟨.exec, none, none, 7, 2, .none, false⟩)]
+
+/-- Non-vacuity: with one private copy per discipline the writer running first or last changes nothing
+    (`10, 30, 23` = each discipline alone on `x = 3`), and only the writer's own copy is overwritten. -/
+example :
+    let ec := discECfg true 3 2 exChainTasks
+    let mem0 : List ObjSt := [⟨3, false, true⟩, ⟨3, true, true⟩, ⟨3, false, true⟩]
+    (erun? ec (einit ec mem0)
+      [.submit, .submit, .submit, .take 0, .take 1, .finish 1, .take 1, .finish 1, .finish 0,
+       .collect, .collect, .collect, .shutdown, .take 0, .take 1]).map
+        (fun s => (s.pool.final, s.pool.result, s.mem.map (·.val)))
+      = some (true, .returned [some 10, some 30, some 23], [3, 6, 3]) := by decide +kernel
+
+example : exChainTasks.map (fun t => (discCall t.2 ⟨3, false, true⟩).1.toOption) = [some 10, some 30, some 23] := by
+  decide +kernel
+
+/-- Contrast (what the model — and the code — must *not* do): ONE deep copy handed to every discipline
+    (all the tasks on object 0).  With the writer before the last reader the reader computes `7·6+2`
+    instead of `23`: the result of a slot depends on which other task ran before. -/
+example :
+    let shared : List (Nat × DiscCall) := exChainTasks.map (fun t => (0, t.2))
+    let ec := discECfg true 1 1 shared
+    (erun? ec (einit ec [⟨3, false, true⟩]) (greedySchedule 3)).map (fun s => (s.pool.final, s.pool.result))
+      = some (true, .returned [some 10, some 30, some 44]) := by decide +kernel
+
+/-- One discipline object, `DiscParallelLinearization(execute=False)`, three inputs, the linearization of
+    the first one raises in `_compute_jacobian`. -/
+def exLinTasks : List (Nat × DiscCall) :=
+  [(0, ⟨.linNoExec, some 1, none, 4, 0, .jac, false⟩), (0, ⟨.linNoExec, some 2, none, 4, 0, .none, false⟩),
+   (0, ⟨.linNoExec, some 5, none, 4, 0, .none, false⟩)]
+
+/-- Non-vacuity: one forked worker, the object already `FAILED` to start with (left by an earlier call):
+    the failing task affects its own slot only, the object ends `DONE`. -/
+example :
+    let ec := discECfg false 1 1 exLinTasks
+    (erun? ec (einit ec (discMem false [⟨0, true, true⟩] 3 1)) (greedySchedule 3)).map
+        (fun s => (s.pool.final, s.pool.result, s.mem.map (·.failed)))
+      = some (true, .returned [none, some 4, some 4], [false]) := by decide +kernel
+
+/-- Contrast: if the status were reset only when the linearization starts by an execution
+    (`discCallResetIfExecuting`), every task taken by the worker after the failing one would fail too. -/
+example :
+    let ec : ECfg ObjSt Rat := { discECfg false 1 1 exLinTasks with
+      body := fun i o => match exLinTasks[i]? with
+        | some t => discCallResetIfExecuting t.2 o
+        | none => (.fail, o) }
+    (erun? ec (einit ec [⟨0, false, true⟩]) (greedySchedule 3)).map
+        (fun s => (s.pool.final, s.pool.result, s.mem.map (·.failed)))
+      = some (true, .returned [none, none, none], [true]) := by decide +kernel
+
+end EFFECTS
 
 /-! ### Non-vacuity: a concrete out-of-order schedule with a failing task -/
 
